@@ -141,8 +141,37 @@ impl PWorld {
         std::thread::sleep(Duration::from_millis(30));
     }
 
+    /// the client's file lets one more write to the appointment tables through and refuses the following ones
+    pub fn arm_second_write_fault(&self) {
+        let Ok(conn) = rusqlite::Connection::open(self.db_path()) else { return };
+        let _ = conn.busy_timeout(Duration::from_secs(5));
+        let mut sql = String::from("CREATE TABLE IF NOT EXISTS verif_fault (n INTEGER); DELETE FROM verif_fault; INSERT INTO verif_fault VALUES (0);");
+        for (i, (table, what)) in [("appointment_receipts", "INSERT"), ("pending_appointments", "DELETE"), ("invalid_appointments", "INSERT"), ("pending_appointments", "INSERT")].iter().enumerate() {
+            sql += &format!("CREATE TRIGGER IF NOT EXISTS verif_before_{i} BEFORE {what} ON {table} WHEN (SELECT n FROM verif_fault) >= 1 BEGIN SELECT RAISE(ABORT, 'verif: the process is killed here'); END;");
+            sql += &format!("CREATE TRIGGER IF NOT EXISTS verif_after_{i} AFTER {what} ON {table} BEGIN UPDATE verif_fault SET n = n + 1; END;");
+        }
+        if let Err(e) = conn.execute_batch(&sql) {
+            eprintln!("arm_second_write_fault: {e}");
+        }
+    }
+
+    fn disarm_write_fault(&self) {
+        if !self.db_path().exists() {
+            return;
+        }
+        let Ok(conn) = rusqlite::Connection::open(self.db_path()) else { return };
+        let _ = conn.busy_timeout(Duration::from_secs(5));
+        let mut sql = String::new();
+        for i in 0..4 {
+            sql += &format!("DROP TRIGGER IF EXISTS verif_before_{i}; DROP TRIGGER IF EXISTS verif_after_{i};");
+        }
+        sql += "DROP TABLE IF EXISTS verif_fault;";
+        let _ = conn.execute_batch(&sql);
+    }
+
     pub fn restart(&mut self) {
         self.plugin.kill();
+        self.disarm_write_fault();
         let opts = self.plugin.opts;
         self.plugin = PluginProc::start(&self.dir, opts);
     }
